@@ -40,11 +40,14 @@ func (eval Evaluator) EvaluateMany(ctIn *rlwe.Ciphertext, linearTransformations 
 
 	BuffDecompQP := eval.GetBuffDecompQP()
 
-	eval.DecomposeNTT(levelQ, levelP, levelP+1, ctIn.Value[1], ctIn.IsNTT, BuffDecompQP)
-
 	ctPreRot := map[int]*rlwe.Element[ringqp.Poly]{}
 
 	for i, lt := range linearTransformations {
+
+		// BuffDecompQP is the evaluator's own buffer: the giant steps of MultiplyByDiagMatrixBSGS
+		// (GadgetProductLazy) use it as scratch space, hence the hoisted decomposition of ctIn
+		// does not survive the evaluation of a linear transformation and is recomputed for each.
+		eval.DecomposeNTT(levelQ, levelP, levelP+1, ctIn.Value[1], ctIn.IsNTT, BuffDecompQP)
 
 		if lt.N1 == 0 {
 			if err = eval.MultiplyByDiagMatrix(ctIn, lt, BuffDecompQP, opOut[i]); err != nil {
